@@ -36,9 +36,10 @@ Lemma retryable_step c s i h k tag : open_query s i h ->
      | DNextHost => retries s1 = retries s + 1 /\ fin_res s1 = fin_res s /\ fin_exc s1 = fin_exc s /\
                  (fin_exc s = None -> queue s1 = queue s ++ [TRetry false h] /\
                                       msg_cl s1 = match dcl with Some x => Some x | None => msg_cl s end)
-     | DRethrow => fin_exc s1 = Some (XResp k tag) /\ queue s1 = queue s /\ retries s1 = retries s /\ msg_cl s1 = msg_cl s
-     | DIgnore => fin_res s1 = Some FNone /\ fin_exc s1 = fin_exc s /\ queue s1 = queue s /\ retries s1 = retries s
-                  /\ msg_cl s1 = msg_cl s
+     | DRethrow => fin_exc s1 = (if completed s then fin_exc s else Some (XResp k tag)) /\ fin_res s1 = fin_res s /\
+                   queue s1 = queue s /\ retries s1 = retries s /\ msg_cl s1 = msg_cl s
+     | DIgnore => fin_res s1 = (if completed s then fin_res s else Some FNone) /\ fin_exc s1 = fin_exc s /\
+                  queue s1 = queue s /\ retries s1 = retries s /\ msg_cl s1 = msg_cl s
      end.
 Proof.
   intros O. rewrite (step_resp_query c s i _ h O). cbn [set_result].
@@ -47,8 +48,13 @@ Proof.
   destruct (pol c (nconsult s) k tag (retries s) (clarg s k)) as [d dcl].
   unfold handle_decision. eexists. split; [reflexivity|].
   cbn [nconsult set_err errors]. rewrite lookup_upd_same.
-  destruct d; cbn; repeat split; try reflexivity;
-    match goal with H : fin_exc s = None |- _ => rewrite H; reflexivity end.
+  destruct d.
+  - cbn; repeat split; try reflexivity; match goal with H : fin_exc s = None |- _ => rewrite H; reflexivity end.
+  - unfold fail_with. change (completed (tick_consult (set_attempts s (mark_done i (attempts s))))) with (completed s).
+    destruct (completed s); cbn; repeat split; reflexivity.
+  - unfold finish_with. change (completed (tick_consult (set_attempts s (mark_done i (attempts s))))) with (completed s).
+    destruct (completed s); cbn; repeat split; reflexivity.
+  - cbn; repeat split; try reflexivity; match goal with H : fin_exc s = None |- _ => rewrite H; reflexivity end.
 Qed.
 
 (* ---- consultations happen only there *)
@@ -166,15 +172,24 @@ Qed.
 Lemma set_exc_cframe s x : cframe s (set_exc s x).
 Proof. repeat split; auto. cbn. discriminate. Qed.
 
+Lemma sbo_cframe s s' : same_but_outcome s s' -> cframe s s'.
+Proof. intros F. destruct F. repeat split; auto. rewrite sbo_armed. discriminate. Qed.
+
+Lemma fail_with_cframe s x : cframe s (fail_with s x).
+Proof. apply sbo_cframe, fail_with_same. Qed.
+
+Lemma finish_with_cframe s r : cframe s (finish_with s r).
+Proof. apply sbo_cframe, finish_with_same. Qed.
+
 Lemma after_prepare_cframe c s h r s' ev : after_prepare c s h r = (s', ev) -> cframe s s'.
 Proof.
   unfold after_prepare. intros H.
   destruct (is_some (fin_exc s)); [inversion H; subst; apply cframe_refl|].
-  destruct r; try (inversion H; subst; apply set_exc_cframe).
+  destruct r; try (inversion H; subst; apply fail_with_cframe).
   - destruct (fut_ps c) as [[[pid pqs] pks]|].
-    + destruct (negb (pid =? id)); [inversion H; subst; apply set_exc_cframe|eapply qon_cframe; eauto].
+    + destruct (negb (pid =? id)); [inversion H; subst; apply fail_with_cframe|eapply qon_cframe; eauto].
     + eapply qon_cframe; eauto.
-  - destruct (is_conn_kind k); [|inversion H; subst; apply set_exc_cframe].
+  - destruct (is_conn_kind k); [|inversion H; subst; apply fail_with_cframe].
     destruct (send_request (set_err s h (EResp k tag)) true) as [s2 ev2] eqn:W. inversion H; subst.
     apply send_request_cframe in W. exact W.
 Qed.
@@ -205,26 +220,38 @@ Proof.
   intros (A1 & A2 & _) H. destruct (no_consult_counts ev H) as [R C]. unfold counted. rewrite R, C, A1, A2. cbn. lia.
 Qed.
 
+Lemma sbo_counted s s' : same_but_outcome s s' ->
+  counted s s' [] /\ spec_left s' = spec_left s /\ (spec_armed s' = true -> spec_armed s = true).
+Proof.
+  intros F. destruct F. unfold counted, retry_count. cbn. rewrite sbo_retries, sbo_ncons, sbo_armed.
+  repeat split; try lia; auto; try discriminate.
+Qed.
+
 Lemma set_result_counted c s h r s' ev : set_result c s h r = (s', ev) ->
   counted s s' ev /\ spec_left s' = spec_left s /\ (spec_armed s' = true -> spec_armed s = true).
 Proof.
   intros H. destruct r; cbn [set_result] in H;
-    try (inversion H; subst; unfold counted, retry_count; cbn; repeat split; try lia; try discriminate; auto; fail).
+    try (inversion H; subst; first [apply sbo_counted, fail_with_same | apply sbo_counted, finish_with_same]).
   - destruct (pol c (nconsult s) k tag (retries s) (if request_error_kind k then msg_cl s else None)) as [d dcl].
     unfold handle_decision in H. inversion H; subst; clear H.
-    destruct d; unfold counted, retry_count; cbn; repeat split; try lia; try discriminate; auto.
+    destruct d; try (unfold counted, retry_count; cbn; repeat split; try lia; try discriminate; auto; fail).
+    + unfold fail_with. change (completed (tick_consult s)) with (completed s).
+      destruct (completed s); unfold counted, retry_count; cbn; repeat split; try lia; try discriminate; auto.
+    + unfold finish_with. change (completed (tick_consult s)) with (completed s).
+      destruct (completed s); unfold counted, retry_count; cbn; repeat split; try lia; try discriminate; auto.
   - unfold unprepared in H.
     assert (G : forall ps, unprep_go c s h ps = (s', ev) ->
                 counted s s' ev /\ spec_left s' = spec_left s /\ (spec_armed s' = true -> spec_armed s = true)).
     { intros [[pid qs] ks0] G. unfold unprep_go in G.
-      destruct (negb (uses_ks c) && is_some ks0 && negb (opt_eqb (conn_ks s) ks0)); inversion G; subst;
-        unfold counted, retry_count; cbn; repeat split; try lia; try discriminate; auto. }
+      destruct (negb (uses_ks c) && is_some ks0 && negb (opt_eqb (conn_ks s) ks0)); inversion G; subst.
+      - apply sbo_counted, fail_with_same.
+      - unfold counted, retry_count; cbn; repeat split; try lia; try discriminate; auto. }
     destruct (fut_ps c) as [[[pid pqs] pks]|].
     + destruct (negb (pid =? id)).
-      * inversion H; subst. unfold counted, retry_count; cbn; repeat split; try lia; discriminate.
+      * inversion H; subst. apply sbo_counted, fail_with_same.
       * destruct (lookup (known c) id); eapply G; eauto.
     + destruct (lookup (known c) id); [eapply G; eauto|].
-      inversion H; subst. unfold counted, retry_count; cbn; repeat split; try lia; discriminate.
+      inversion H; subst. apply sbo_counted, fail_with_same.
 Qed.
 
 (* Spec is the only step that can arm the speculative timer or consume the speculative plan *)
